@@ -59,16 +59,12 @@ fn escape_unicode_chars(s: &str) -> String {
         if c.is_ascii() {
             result.push(c);
         } else {
-            let esc_c = c.escape_unicode().to_string();
-
-            let esc_c_new = match esc_c.chars().count() {
-                6 => esc_c.replace("\\u{", "\\u00").replace('}', ""), // example: \u{de}
-                7 => esc_c.replace("\\u{", "\\u0").replace('}', ""),  // example: \u{980}
-                8 => esc_c.replace("\\u{", "\\u").replace('}', ""),   // example: \u{23f0}
-                _ => {panic!("unexpected value")}
-            };
-
-            result.push_str(&esc_c_new);
+            // JSON \uXXXX escapes are UTF-16 code units: characters outside the BMP
+            // are written as a surrogate pair, example: \ud83d\ude00
+            let mut units = [0u16; 2];
+            for unit in c.encode_utf16(&mut units) {
+                result.push_str(&format!("\\u{:04x}", unit));
+            }
         }
     }
 
